@@ -2,7 +2,7 @@
 import json
 from vf import core, pipeline, tlaval, tlc
 
-FORMULAS = {'Exclusive', 'NoneAfterBody', 'Rerequest', 'Forgotten', 'TrackedOrAsked', 'GroupUniform', 'NoPanic'}
+FORMULAS = {'ConcurrentExclusive', 'ConcurrentAsked', 'Exclusive', 'NoneAfterBody', 'Rerequest', 'Forgotten', 'TrackedOrAsked', 'GroupUniform', 'NoPanic'}
 BULK = 120      # more than the 100 entries TxTracker.Check puts into one getdata
 
 
@@ -68,7 +68,28 @@ def main(argv):
         chk.log('DRIFT: Trace_TxRequests rejected %d lines (traces %s)' % (len(rej), drift[:5]))
         l = rej[0]
         chk.log('  rejected: %s skip=%r\n     before %s\n     after  %s' % (lines[l - 1]['act'], lines[l - 1]['skip'], json.dumps(lines[l - 2]['st']), json.dumps(lines[l - 1]['st'])))
+    burst = {}
+    if not chk.replay:
+        # the atomicity assumption of the model, on the real code: simultaneous announcements / periodic checks on all connections
+        bs = [{'id': 'burst-%d-%d' % (chk.seed, i), 'rounds': 12 if thorough else 6} for i in range(28 if thorough else 14)]
+        bl2, _ = pipeline.replay_parallel(chk, 'spynode', 'TestVerifTxBurst', {'nc': 3, 'k': 150}, bs, nproc=14)
+        nb = 0
+        for sel, rs, r2 in pipeline.tlc_lines_parallel(chk, 'Props_TxBurst', 'Props_TxBurst.cfg', bl2, 'props_result.json', 2, 600):
+            for f, j in rs['bad']:
+                ln = bl2[sel[j - 1] - 1]
+                nb += 1
+                if (ln['tr'], f) in seen:
+                    continue
+                seen.add((ln['tr'], f))
+                chk.violation(f, 'concurrent scenario %s round %d %s on 3 connections at once: of %d announced transactions %d requested once, %d not at all; %d transactions requested '
+                              'more than once (%d getdata entries)' % (ln['tr'], ln['st']['round'], ln['act']['a'], ln['st']['k'], ln['st']['once'], ln['st']['none'],
+                                                                       ln['st']['multi'], ln['st']['asks']), {'burst': {'rounds': ln['st']['round']}}, {'line': ln})
+        burst = {'scenarios': len(bs), 'phases': len(bl2), 'transactions': sum(l['st']['k'] for l in bl2 if l['act']['a'] == 'InvAll'),
+                 'getdata_entries': sum(l['st']['asks'] for l in bl2), 'false_instances': nb}
+        chk.log('concurrent announcements / checks on 3 real connections: %d scenarios, %d phases, %d getdata entries, %d false' % (
+            len(bs), len(bl2), burst['getdata_entries'], nb))
     chk.finish({
+        'concurrent_batch': burst,
         'states': r.distinct, 'transitions': r.generated,
         'traces_validated_against_impl': len(groups) - len(drift),
         'evaluations': len(scripts),
